@@ -130,22 +130,31 @@ def Selector.reqStrings (s : Selector) : List String :=
     (s.matchLabels.map fun kv => (kv.1, kv.1 ++ "=" ++ kv.2)) ++ (s.exprs.map fun r => (r.key, reqString r))
   (reqs.mergeSort (fun a b => a.1 ≤ b.1)).map (·.2)
 
-/-- `SelectorsFullMatch(ruleSelector, peerSelector)`: every requirement of the representative
-peer's selector appears among the rule's requirements … as coded: equal size and each of the
-rule's requirement strings is among the peer's -/
+/-- `SelectorsFullMatch(ruleSelector, repSelector)`: an empty rule selector matches every
+representative peer; otherwise the two sorted requirement lists must have the same length and
+pairwise equal strings (`k in (v)` rewritten to `k=v`). Pointer equality of the two selectors is a
+special case of equal requirement lists. -/
 def selectorsFullMatch (rule : Selector) (peer : Option Selector) : Bool :=
-  match peer with
-  | none => false
-  | some ps =>
-    let a := rule.reqStrings
-    let b := ps.reqStrings
-    a.length == b.length && a.all (fun x => b.contains x)
+  if rule.isEmpty then true          -- "empty rule matches everything"
+  else match peer with
+    | none => false                  -- a nil selector converts to Nothing: no requirements
+    | some ps => rule.reqStrings == ps.reqStrings
 
 namespace NetPol
 
 /-- `selectorsMatch` -/
 def selectorsMatch (ruleSel : Selector) (peerSel : Option Selector) (peerLabels : Labels) (isRepr : Bool) : Bool :=
   if isRepr then selectorsFullMatch ruleSel peerSel else ruleSel.matches peerLabels
+
+/-- a rule peer without namespaceSelector: pods of the policy's namespace; a representative peer stands for
+them iff its namespace selector is exactly the name label of that namespace -/
+def nsMatchNil (np : NetPol) (pod : Pod) : Bool :=
+  if pod.isRepresentative then selectorsFullMatch ⟨[(nsNameLabelKey, np.ns)], []⟩ pod.reprNsSel
+  else np.ns == pod.ns
+
+theorem nsMatchNil_real (np : NetPol) (pod : Pod) (h : pod.isRepresentative = false) :
+    nsMatchNil np pod = (np.ns == pod.ns) := by
+  simp [nsMatchNil, h]
 
 /-- `ruleSelectsPeer` -/
 def ruleSelectsPeer (np : NetPol) (peers : List NPPeer) (peer : KPeer) : Except Err Bool :=
@@ -162,7 +171,7 @@ def ruleSelectsPeer (np : NetPol) (peers : List NPPeer) (peer : KPeer) : Except 
           | .pod pod nsObj =>
             let isRepr := pod.isRepresentative
             let nsMatch := match nsSel with
-              | none => np.ns == pod.ns
+              | none => nsMatchNil np pod
               | some s => selectorsMatch s pod.reprNsSel ((nsObj.map (·.labels)).getD []) isRepr
             if !nsMatch then go rest
             else
